@@ -84,9 +84,9 @@ class _Subst(ast.NodeTransformer):
             if self.keep:
                 # a helper local folded into its use: the value keeps its own positions (and the types known there)
                 return new
-            for x in ast.walk(new):
-                if hasattr(x, 'lineno') or isinstance(x, (ast.expr, ast.stmt)):
-                    ast.copy_location(x, n)
+            # ... as a whole; its parts keep the positions they have at the call site (and the types known there)
+            if not isinstance(new, ast.Call):
+                ast.copy_location(new, n)
             return new
         if n.id in self.r:
             return ast.copy_location(ast.Name(id=self.r[n.id], ctx=n.ctx), n)
